@@ -1,7 +1,7 @@
 (* Props/C17.v — property C17: date-time / duration / time-of-day arithmetic obeys its inverse laws.
    Statements about the model (Model/Time.v) closed by `exact`; Print Assumptions at the end. *)
 From Coq Require Import ZArith List Bool.
-From Tevec Require Import Base.Prelude Spec.Calendar Model.Time Proofs.Time Proofs.TimeCal Proofs.Calendar Proofs.TimeCal2.
+From Tevec Require Import Base.Prelude Spec.Calendar Model.Time Proofs.Time Proofs.TimeCal Proofs.Calendar Proofs.TimeCal2 Proofs.Time3.
 Local Open Scope Z_scope.
 
 (* ---- (1) (x + d) - d = x and (x - d) + d = x for a month-free d, outside known-finding class 1 ------- *)
@@ -230,6 +230,216 @@ Corollary C17_add_sub_class1_always_fails :
     dt_add u x d = Ok y -> y <> NaT -> dt_sub u y d = Ok z -> z <> NaT -> z <> x.
 Proof. exact add_sub_class1_always_fails. Qed.
 
+(* ---- (8) extension X27: with_*, components bijection, TimeDelta / TimeDelta, the full scaling laws -------------- *)
+(* Time::with_hour / with_minute / with_second / with_nanosecond (impl_time.rs:62-101): on every time of day and every
+   valid component the result is a time of day that reports the new component and the three others unchanged *)
+Theorem C17_time_with_components :
+  forall t, 0 <= t < 86400000000000 ->
+    (forall h, 0 <= h < 24 -> exists t', time_with_hour t h = Some t' /\ 0 <= t' < 86400000000000
+        /\ time_hour t' = Ok h /\ time_minute t' = time_minute t /\ time_second t' = time_second t
+        /\ time_nanosecond t' = time_nanosecond t)
+    /\ (forall m, 0 <= m < 60 -> exists t', time_with_minute t m = Some t' /\ 0 <= t' < 86400000000000
+        /\ time_hour t' = time_hour t /\ time_minute t' = Ok m /\ time_second t' = time_second t
+        /\ time_nanosecond t' = time_nanosecond t)
+    /\ (forall s, 0 <= s < 60 -> exists t', time_with_second t s = Some t' /\ 0 <= t' < 86400000000000
+        /\ time_hour t' = time_hour t /\ time_minute t' = time_minute t /\ time_second t' = Ok s
+        /\ time_nanosecond t' = time_nanosecond t)
+    /\ (forall n, 0 <= n < 1000000000 -> exists t', time_with_nanosecond t n = Some t' /\ 0 <= t' < 86400000000000
+        /\ time_hour t' = time_hour t /\ time_minute t' = time_minute t /\ time_second t' = time_second t
+        /\ time_nanosecond t' = Ok n).
+Proof.
+  intros t Ht. split; [intros h Hh; exact (time_with_hour_getters t h Ht Hh)|].
+  split; [intros m Hm; exact (time_with_minute_getters t m Ht Hm)|].
+  split; [intros s Hs; exact (time_with_second_getters t s Ht Hs)|].
+  intros n Hn; exact (time_with_nanosecond_getters t n Ht Hn).
+Qed.
+(* ... in closed form on the raw nanoseconds since midnight (with_nanosecond also on chrono's leap-second range) *)
+Theorem C17_time_with_values :
+  forall t, 0 <= t < 86400000000000 ->
+    (forall h, 0 <= h < 24 -> time_with_hour t h = Some (t + (h - t / 3600000000000) * 3600000000000))
+    /\ (forall m, 0 <= m < 60 -> time_with_minute t m = Some (t + (m - t / 60000000000 mod 60) * 60000000000))
+    /\ (forall s, 0 <= s < 60 -> time_with_second t s = Some (t + (s - t / 1000000000 mod 60) * 1000000000))
+    /\ (forall n, 0 <= n < 2000000000 -> time_with_nanosecond t n = Some (t + (n - t mod 1000000000))).
+Proof. exact time_with_values. Qed.
+(* out-of-range components give the documented None, whatever the receiver *)
+Theorem C17_time_with_out_of_range :
+  forall t, (forall h, 24 <= h -> time_with_hour t h = None)
+    /\ (forall m, 60 <= m -> time_with_minute t m = None)
+    /\ (forall s, 60 <= s -> time_with_second t s = None)
+    /\ (forall n, 2000000000 <= n -> time_with_nanosecond t n = None).
+Proof. exact time_with_out_of_range. Qed.
+(* a receiver that chrono does not accept as a time of day (NaT, every negative value down to -(2^32 - 86400) s):
+   None for every component *)
+Theorem C17_time_with_invalid_receiver :
+  forall t v, t = NaT \/ - 4294880896000000000 <= t < 0 ->
+    time_with_hour t v = None /\ time_with_minute t v = None /\ time_with_second t v = None
+    /\ time_with_nanosecond t v = None.
+Proof.
+  intros t v [-> | Ht]; apply time_with_invalid; [exact time_as_cr_nat | exact (time_as_cr_negative t Ht)].
+Qed.
+(* composing the four setters from midnight = from_hms_nano *)
+Theorem C17_time_with_compose :
+  forall h m s n, hms_ok h m s -> 0 <= n < 1000000000 ->
+    exists t1 t2 t3 t4, time_with_hour 0 h = Some t1 /\ time_with_minute t1 m = Some t2
+      /\ time_with_second t2 s = Some t3 /\ time_with_nanosecond t3 n = Some t4
+      /\ time_from_hms_nano h m s n = Ok t4.
+Proof.
+  intros h m s n H Hn. destruct H as (Hh & Hm & Hs).
+  assert (C0 : comp_ok 0 0 0 0) by (repeat split; Lia.lia).
+  assert (C1 : comp_ok h 0 0 0) by (repeat split; Lia.lia).
+  assert (C2 : comp_ok h m 0 0) by (repeat split; Lia.lia).
+  assert (C3 : comp_ok h m s 0) by (repeat split; Lia.lia).
+  assert (C4 : comp_ok h m s n) by (repeat split; Lia.lia).
+  exists (time_of_comp h 0 0 0), (time_of_comp h m 0 0), (time_of_comp h m s 0), (time_of_comp h m s n).
+  split; [exact (time_with_hour_comp 0 0 0 0 h C0 Hh)|].
+  split; [exact (time_with_minute_comp h 0 0 0 m C1 Hm)|].
+  split; [exact (time_with_second_comp h m 0 0 s C2 Hs)|].
+  split; [apply (time_with_nanosecond_comp h m s 0 n C3); Lia.lia|].
+  exact (time_from_hms_nano_comp h m s n C4).
+Qed.
+(* the setters commute, a second set overrides the first, setting the current value is the identity *)
+Theorem C17_time_with_commute :
+  forall t h m, 0 <= t < 86400000000000 -> 0 <= h < 24 -> 0 <= m < 60 ->
+    obind (time_with_hour t h) (fun t1 => time_with_minute t1 m)
+    = obind (time_with_minute t m) (fun t1 => time_with_hour t1 h).
+Proof. exact time_with_commute. Qed.
+Theorem C17_time_with_idempotent :
+  forall t h h', 0 <= t < 86400000000000 -> 0 <= h < 24 -> 0 <= h' < 24 ->
+    obind (time_with_hour t h) (fun t1 => time_with_hour t1 h') = time_with_hour t h'
+    /\ time_with_hour t (t / 3600000000000) = Some t.
+Proof. exact time_with_idempotent. Qed.
+(* remark made precise: chrono accepts 10^9 <= n < 2*10^9 (leap second) on EVERY second; Time cannot represent it, so the
+   result reports n - 10^9 in the next second, and at 23:59:59 it is a `Some` whose getters panic *)
+Theorem C17_time_with_nanosecond_leap_range :
+  forall t n, 0 <= t < 86400000000000 -> 1000000000 <= n < 2000000000 ->
+    exists t', time_with_nanosecond t n = Some t' /\ t' = t / 1000000000 * 1000000000 + n
+      /\ (t < 86399000000000 -> time_nanosecond t' = Ok (n - 1000000000)
+                                /\ time_as_cr t' = Some (t / 1000000000 + 1, n - 1000000000))
+      /\ (86399000000000 <= t -> time_as_cr t' = None /\ time_hour t' = Panic UnwrapNone).
+Proof. exact time_with_nanosecond_leap. Qed.
+
+(* (h, m, s, ns) |-> Time is a bijection between the valid components and 0 <= raw < 86400 * 10^9, inverse = getters *)
+Theorem C17_time_components_bijection :
+  (forall h m s n h' m' s' n' t, hms_ok h m s -> 0 <= n < 1000000000 -> hms_ok h' m' s' -> 0 <= n' < 1000000000 ->
+     time_from_hms_nano h m s n = Ok t -> time_from_hms_nano h' m' s' n' = Ok t ->
+     h = h' /\ m = m' /\ s = s' /\ n = n')
+  /\ (forall h m s n t, hms_ok h m s -> 0 <= n < 1000000000 -> time_from_hms_nano h m s n = Ok t ->
+        0 <= t < 86400000000000)
+  /\ (forall t, 0 <= t < 86400000000000 ->
+        exists h m s n, hms_ok h m s /\ 0 <= n < 1000000000 /\ time_from_hms_nano h m s n = Ok t
+          /\ time_hour t = Ok h /\ time_minute t = Ok m /\ time_second t = Ok s /\ time_nanosecond t = Ok n).
+Proof.
+  split; [intros h m s n h' m' s' n' t H Hn H' Hn'; exact (time_ctor_injective h m s n h' m' s' n' t (conj H Hn) (conj H' Hn'))|].
+  split; [intros h m s n t H Hn; exact (time_ctor_range h m s n t (conj H Hn))|].
+  intros t Ht. destruct (time_ctor_onto t Ht) as (h & m & s & n & [H Hn] & R). exists h, m, s, n. tauto.
+Qed.
+Theorem C17_time_getters_then_ctor :
+  forall t h m s n, 0 <= t < 86400000000000 -> time_hour t = Ok h -> time_minute t = Ok m -> time_second t = Ok s ->
+    time_nanosecond t = Ok n -> (hms_ok h m s /\ 0 <= n < 1000000000) /\ time_from_hms_nano h m s n = Ok t.
+Proof. exact time_getters_ctor_inverse. Qed.
+
+(* TimeDelta / TimeDelta -> i32 (impl_ops.rs:149-170, "may not as expected"): what the code computes *)
+(* (k * d) / d = k for every non-NaT d with a non-zero fixed part (with or without months) and every i32 k *)
+Theorem C17_timedelta_div :
+  forall d k kd, td_is_nat d = false -> td_ns d <> 0 -> in_i64 (td_ns d) = true -> in_i32 k = true ->
+    td_mul d k = Ok kd -> td_is_nat kd = false -> in_i64 (td_ns kd) = true -> td_div kd d = Ok k.
+Proof. exact td_div_mul_cancel. Qed.
+Theorem C17_timedelta_div_self :
+  forall d, td_is_nat d = false -> td_ns d <> 0 -> in_i64 (td_ns d) = true -> td_div d d = Ok 1.
+Proof. exact td_div_self. Qed.
+(* value: truncating quotient of the fixed parts, cast `as i32` (silent wrap-around), when an operand is month-free *)
+Theorem C17_timedelta_div_value :
+  forall a b, td_is_nat a = false -> td_is_nat b = false -> in_i64 (td_ns a) = true -> in_i64 (td_ns b) = true ->
+    td_ns b <> 0 -> ~ (td_ns a = i64_min /\ td_ns b = -1) -> td_months a = 0 \/ td_months b = 0 ->
+    td_div a b = Ok (wrap_i32 (Z.quot (td_ns a) (td_ns b))).
+Proof. exact td_div_value. Qed.
+(* division with remainder toward zero: a = q * b + r, |r| < |b|, r has the sign of a *)
+Theorem C17_timedelta_div_remainder :
+  forall a b q, td_is_nat a = false -> td_is_nat b = false -> in_i64 (td_ns a) = true -> in_i64 (td_ns b) = true ->
+    td_ns b <> 0 -> td_months a = 0 \/ td_months b = 0 -> in_i32 (Z.quot (td_ns a) (td_ns b)) = true ->
+    td_div a b = Ok q ->
+    exists r, td_ns a = q * td_ns b + r /\ Z.abs r < Z.abs (td_ns b) /\ 0 <= r * td_ns a.
+Proof. exact td_div_trunc. Qed.
+(* both with months: the month quotient if the nanosecond quotient agrees with it, else a panic *)
+Theorem C17_timedelta_div_months :
+  forall a b, td_is_nat a = false -> td_is_nat b = false -> in_i64 (td_ns a) = true -> in_i64 (td_ns b) = true ->
+    td_ns b <> 0 -> ~ (td_ns a = i64_min /\ td_ns b = -1) -> td_months a <> 0 -> td_months b <> 0 ->
+    td_div a b = if Z.quot (td_months a) (td_months b) =? wrap_i32 (Z.quot (td_ns a) (td_ns b))
+                 then Ok (Z.quot (td_months a) (td_months b)) else Panic OtherPanic.
+Proof. exact td_div_months. Qed.
+(* NaT operand: panic; zero fixed part in the divisor: "attempt to divide by zero", ALSO for pure-month operands
+   (2mo / 1mo panics); i64::MIN / -1: overflow; a fixed part beyond i64 nanoseconds: unwrap on None *)
+Theorem C17_timedelta_div_failures :
+  (forall a b, td_is_nat a = true \/ td_is_nat b = true -> td_div a b = Panic OtherPanic)
+  /\ (forall a b, td_is_nat a = false -> td_is_nat b = false -> in_i64 (td_ns a) = true -> td_ns b = 0 ->
+        td_div a b = Panic OtherPanic)
+  /\ (forall a b, td_is_nat a = false -> td_is_nat b = false -> td_ns a = i64_min -> td_ns b = -1 ->
+        td_div a b = Panic Overflow)
+  /\ (forall a b, td_is_nat a = false -> td_is_nat b = false -> in_i64 (td_ns a) = false \/ in_i64 (td_ns b) = false ->
+        td_div a b = Panic UnwrapNone).
+Proof. repeat split; [exact td_div_nat | exact td_div_zero | exact td_div_min_neg1 | exact td_div_unrepresentable]. Qed.
+
+(* scaling: the full set of laws.  Each equation is stated as: when the side with MORE operations exists (no overflow
+   panic, nothing read as NaT), the other side exists too and is equal.  (The converses fail: C17_td_scale_converse_fails.) *)
+Theorem C17_scaling_distributes_full :
+  (* k * (a + b) = k * a + k * b *)
+  (forall a b k ab ak bk r, td_is_nat a = false -> td_is_nat b = false -> td_add a b = Ok ab -> td_is_nat ab = false ->
+     td_mul a k = Ok ak -> td_mul b k = Ok bk -> td_is_nat ak = false -> td_is_nat bk = false ->
+     td_add ak bk = Ok r -> td_mul ab k = Ok r)
+  (* (j + k) * d = j * d + k * d *)
+  /\ (forall d j k dj dk r, td_is_nat d = false -> td_mul d j = Ok dj -> td_mul d k = Ok dk ->
+        td_is_nat dj = false -> td_is_nat dk = false -> td_add dj dk = Ok r -> td_mul d (j + k) = Ok r)
+  (* (j * k) * d = j * (k * d) *)
+  /\ (forall d j k dk r, td_is_nat d = false -> td_mul d k = Ok dk -> td_is_nat dk = false -> td_mul dk j = Ok r ->
+        td_mul d (j * k) = Ok r)
+  (* 1 * d = d, (-1) * d = -d, 0 * d = zero *)
+  /\ (forall d, td_valid d -> td_mul d 1 = Ok d)
+  /\ (forall d, td_valid d -> td_mul d (-1) = Ok (td_neg d))
+  /\ (forall d, td_is_nat d = false -> td_mul d 0 = Ok td_zero).
+Proof.
+  split; [exact td_mul_add_distr_full|]. split; [exact td_mul_plus|]. split; [exact td_mul_mul|].
+  split; [exact td_mul_1|]. split; [exact td_mul_m1|exact td_mul_0].
+Qed.
+(* NaT * k = NaT for EVERY k, 0 included: it never becomes the zero duration (seeded defect C16-3) *)
+Theorem C17_td_scale_nat_absorbs :
+  forall a k, td_is_nat a = true -> td_mul a k = Ok td_nat /\ td_is_nat td_nat = true /\ td_nat <> td_zero.
+Proof. exact td_mul_nat_every_k. Qed.
+Corollary C17_td_scale_nat_times_zero : td_mul td_nat 0 = Ok td_nat /\ td_mul td_nat 0 <> Ok td_zero.
+Proof. split; [reflexivity | discriminate]. Qed.
+(* a purely arithmetic sufficient condition under which scaling succeeds with the exact product and a valid result *)
+Theorem C17_td_scale_bounded :
+  forall B d k, 0 <= B <= 1000000000 -> td_bounded B d -> Z.abs k * B <= 1000000000 ->
+    td_mul d k = Ok (mktd (td_months d * k) (td_ns d * k)) /\ td_valid (mktd (td_months d * k) (td_ns d * k)).
+Proof. exact td_mul_bounded. Qed.
+Theorem C17_td_scale_converse_fails :
+  (exists a b k ab, td_add a b = Ok ab /\ td_mul ab k = Ok td_zero /\ td_mul a k = Panic Overflow)
+  /\ (exists d j k, td_mul d (j + k) = Ok td_zero /\ td_mul d j = Panic Overflow)
+  /\ (exists d j k, td_mul d (j * k) = Ok td_zero /\ td_mul d k = Panic Overflow).
+Proof. exact td_scale_converse_fails. Qed.
+
+(* PartialOrd for TimeDelta (impl_timedelta.rs:56-69): lexicographic on (months, ns) for a non-NaT left operand, None
+   for a NaT left operand, Greater against a NaT right operand; compatible with + and reversed by negation *)
+Theorem C17_td_order :
+  (forall a b, td_is_nat a = false ->
+     td_partial_cmp a b = Some (match td_months a ?= td_months b with Eq => td_ns a ?= td_ns b | c => c end))
+  /\ (forall a b, td_is_nat a = true -> td_partial_cmp a b = None)
+  /\ (forall a b, td_valid a -> td_is_nat b = true -> td_partial_cmp a b = Some Gt)
+  /\ (forall a b, td_is_nat a = false -> td_partial_cmp a b = Some Eq -> a = b)
+  /\ (forall a b, td_is_nat a = false -> td_is_nat b = false ->
+        td_partial_cmp b a = option_map CompOpp (td_partial_cmp a b))
+  /\ (forall a b c, td_is_nat a = false -> td_is_nat b = false ->
+        td_partial_cmp a b = Some Lt -> td_partial_cmp b c = Some Lt -> td_partial_cmp a c = Some Lt).
+Proof.
+  split; [exact td_cmp_lex|]. split; [exact td_cmp_nat_l|]. split; [exact td_cmp_nat_r|].
+  split; [exact td_cmp_eq|]. split; [exact td_cmp_antisym | exact td_cmp_trans].
+Qed.
+Theorem C17_td_order_group_compatible :
+  (forall a b c ac bc, td_is_nat a = false -> td_is_nat b = false -> td_is_nat c = false ->
+     td_add a c = Ok ac -> td_add b c = Ok bc -> td_is_nat ac = false ->
+     td_partial_cmp ac bc = td_partial_cmp a b)
+  /\ (forall a b, td_valid a -> td_valid b -> td_partial_cmp (td_neg a) (td_neg b) = td_partial_cmp b a).
+Proof. split; [exact td_cmp_add_mono | exact td_cmp_neg]. Qed.
+
 (* ---- non-vacuity ---------------------------------------------------------------------------------------------- *)
 Example C17_ex_add_sub :
   dt_add Sec 0 (mktd 0 90000000000) = Ok 90 /\ dt_sub Sec 90 (mktd 0 90000000000) = Ok 0
@@ -281,6 +491,37 @@ Proof.
   vm_compute. intuition.
 Qed.
 
+Example C17_ex_with :
+  (* 12:34:56.000000007 *)
+  time_with_hour 45296000000007 15 = Some 56096000000007 /\ time_with_minute 45296000000007 0 = Some 43256000000007
+  /\ time_with_second 45296000000007 59 = Some 45299000000007 /\ time_with_nanosecond 45296000000007 999999999 = Some 45296999999999
+  /\ time_with_hour 45296000000007 24 = None /\ time_with_nanosecond 45296000000007 2000000000 = None
+  /\ time_with_hour NaT 0 = None /\ time_with_second (-1) 0 = None
+  (* leap-second range at 23:59:59: a Some whose hour() panics *)
+  /\ time_with_nanosecond 86399000000000 1500000000 = Some 86400500000000 /\ time_hour 86400500000000 = Panic UnwrapNone.
+Proof. vm_compute. intuition. Qed.
+Example C17_ex_div :
+  td_mul (mktd 0 90000000000) 7 = Ok (mktd 0 630000000000) /\ td_div (mktd 0 630000000000) (mktd 0 90000000000) = Ok 7
+  /\ td_mul (mktd 2 5) (-3) = Ok (mktd (-6) (-15)) /\ td_div (mktd (-6) (-15)) (mktd 2 5) = Ok (-3)
+  /\ td_div (mktd 0 7) (mktd 0 (-2)) = Ok (-3) /\ td_div (mktd 0 (-7)) (mktd 0 2) = Ok (-3)
+  (* pure months: divide by zero; mismatching quotients; NaT; silent `as i32` wrap-around: 2^32 ns / 1 ns = 0 *)
+  /\ td_div (mktd 2 0) (mktd 1 0) = Panic OtherPanic /\ td_div (mktd 4 10) (mktd 2 3) = Panic OtherPanic
+  /\ td_div td_nat (mktd 0 1) = Panic OtherPanic /\ td_div (mktd 0 4294967296) (mktd 0 1) = Ok 0
+  /\ td_div (mktd 0 i64_min) (mktd 0 (-1)) = Panic Overflow /\ td_div (mktd 0 (i64_max + 1)) (mktd 0 1) = Panic UnwrapNone.
+Proof. vm_compute. intuition. Qed.
+Example C17_ex_scaling :
+  td_mul (mktd 3 5) 4 = Ok (mktd 12 20) /\ td_mul (mktd 3 5) (-1) = Ok (td_neg (mktd 3 5)) /\ td_mul (mktd 3 5) 0 = Ok td_zero
+  /\ td_mul td_nat 0 = Ok td_nat /\ td_mul td_nat 5 = Ok td_nat
+  /\ td_mul (mktd 3 5) (2 + 4) = Ok (mktd 18 30) /\ td_add (mktd 6 10) (mktd 12 20) = Ok (mktd 18 30)
+  /\ td_mul (mktd 6 10) 4 = Ok (mktd 24 40) /\ td_mul (mktd 3 5) (4 * 2) = Ok (mktd 24 40)
+  /\ td_bounded 1000 (mktd (-1000) 1000000000000).
+Proof. vm_compute. intuition discriminate. Qed.
+Example C17_ex_order_td :
+  td_partial_cmp (mktd 1 0) (mktd 0 999999999999999) = Some Gt /\ td_partial_cmp (mktd 0 (-1)) (mktd 0 1) = Some Lt
+  /\ td_partial_cmp td_nat td_zero = None /\ td_partial_cmp td_zero td_nat = Some Gt
+  /\ td_partial_cmp (mktd 2 5) (mktd 2 5) = Some Eq.
+Proof. vm_compute. intuition. Qed.
+
 Print Assumptions C17_add_sub_inverse.
 Print Assumptions C17_diff_add_inverse.
 Print Assumptions C17_td_scale_distributes.
@@ -295,3 +536,17 @@ Print Assumptions C17_month_trunc_greatest.
 Print Assumptions C17_month_trunc_containing_period.
 Print Assumptions C17_trunc_monthfree_le.
 Print Assumptions C17_add_sub_class1_loses_one_unit.
+Print Assumptions C17_time_with_components.
+Print Assumptions C17_time_with_values.
+Print Assumptions C17_time_with_invalid_receiver.
+Print Assumptions C17_time_with_compose.
+Print Assumptions C17_time_with_nanosecond_leap_range.
+Print Assumptions C17_time_components_bijection.
+Print Assumptions C17_timedelta_div.
+Print Assumptions C17_timedelta_div_remainder.
+Print Assumptions C17_timedelta_div_failures.
+Print Assumptions C17_scaling_distributes_full.
+Print Assumptions C17_td_scale_nat_absorbs.
+Print Assumptions C17_td_scale_bounded.
+Print Assumptions C17_td_order.
+Print Assumptions C17_td_order_group_compatible.
